@@ -131,12 +131,12 @@ def run(ctx, prog):
                 wver = rv_['ops'][rv_['fields'].index('version')].get('int')
     ctx.inst('C13.R2', 'Snapshot', 'writer constants found', wmagic is not None and wver is not None,
              'magic written by save: %s; version written by new: %s' % (wmagic, wver), nontrivial=False)
-    GUARDS = [('magic', r'cmp\[\+ var:magic_val != %s\]$' % wmagic),
-              ('checksum', r'cmp\[\+ (var:computed_checksum - var:stored_checksum|var:stored_checksum - var:computed_checksum) != 0\]$'),
-              ('version', r'cmp\[\+ var:snapshot_version != %s\]$' % wver)]
+    GUARDS = [('magic', r'cmp\[\+ var:magic_val == %s\]$' % wmagic),
+              ('checksum', r'cmp\[\+ (var:computed_checksum - var:stored_checksum|var:stored_checksum - var:computed_checksum) == 0\]$'),
+              ('version', r'cmp\[\+ var:snapshot_version == %s\]$' % wver)]
     for nm, rx in GUARDS:
-        fail = sw_edges(sl, osl, '^' + rx)
-        pas = sw_edges(sl, osl, '^!' + rx)
+        fail = sw_edges(sl, osl, '^!' + rx)
+        pas = sw_edges(sl, osl, '^' + rx)
         if not fail or not pas:
             ctx.inst('C13.R2', sl.short, 'Ok only past the %s guard' % nm, False, 'anchor missing: %s comparison not found in a recognised form' % nm)
             continue
@@ -170,7 +170,7 @@ def run(ctx, prog):
     head = min(c.bb for c in reads)
     rets = ra.return_blocks()
     CORR = [('invalid size', r'^cmp\[\+ var:entry_size == 0\]$|^cmp\[\+ var:entry_size - .*MAX_WAL_ENTRY_BYTES >= 1\]$'),
-            ('CRC mismatch', r'^cmp\[\+ (var:computed_checksum - var:stored_checksum|var:stored_checksum - var:computed_checksum) != 0\]$'),
+            ('CRC mismatch', r'^!cmp\[\+ (var:computed_checksum - var:stored_checksum|var:stored_checksum - var:computed_checksum) == 0\]$'),
             ('deserialize error', r'^variant\(bincode::deserialize.*\) = Err$|^variant\(.*deserialize.*\) = Err$')]
     for nm, rx in CORR:
         es = sw_edges(ra, ora, rx)
